@@ -302,14 +302,21 @@ class Check:
             # once more, and if it panics there again this is reported as a violation (exit 1); anything else is exit 2.
             head = code_panic(p.stderr)
             if head:
-                try:
-                    p2 = subprocess.run(args, cwd=cwd or self.work, input=stdin, stdout=subprocess.PIPE,
-                                        stderr=subprocess.PIPE, text=True, timeout=timeout, env=env, errors="replace")
-                except subprocess.TimeoutExpired:
-                    p2 = None
-                head2 = code_panic(p2.stderr) if p2 is not None and p2.returncode not in ok_codes else None
-                if head2:
-                    raise CodePanic(head2, [os.path.basename(a) for a in args])
+                # (a panic that depends on a race need not come back at once: up to 3 more runs of the same command)
+                for _ in range(3):
+                    try:
+                        p2 = subprocess.run(args, cwd=cwd or self.work, input=stdin, stdout=subprocess.PIPE,
+                                            stderr=subprocess.PIPE, text=True, timeout=timeout, env=env, errors="replace")
+                    except subprocess.TimeoutExpired:
+                        p2 = None
+                    head2 = code_panic(p2.stderr) if p2 is not None and p2.returncode not in ok_codes else None
+                    if head2:
+                        raise CodePanic(head2, [os.path.basename(a) for a in args])
+                    if p2 is not None and p2.returncode in ok_codes:
+                        # the panic did not come back and the command completed: its observations are judged as usual
+                        # (the unreproduced panic is named in the evidence)
+                        self.extra.setdefault("unreproduced_code_panics", []).append(head[:300])
+                        return p2
             raise Inconclusive("driver failed rc=%s: %s\n%s\n%s" % (p.returncode, " ".join(args)[:200],
                                                                     p.stdout[-2000:], p.stderr[-4000:]))
         return p
